@@ -444,6 +444,28 @@ fn add_extra_starts(r: &mut Sm, sc: &mut Scenario, b: &mut Batch) {
         if !sc.problem.extra_starts.is_empty() {
             sc.problem.tags.push("several-start-states".into());
             b.count("cases_with_several_start_states", 1);
+            // now and then the *first* entry is a valid state just outside the sampling box of a
+            // real-vector component (legitimate: bounds only confine the samples), so that the
+            // listed states differ in whether they satisfy the bounds as well
+            if r.bool(0.3) {
+                let offs = spec.offsets();
+                for (ci, c) in spec.comps.iter().enumerate() {
+                    if let crate::spec::CK::R { n, bounds: Some(bs) } = &c.kind {
+                        let j = r.below(*n);
+                        let (lo, hi) = bs[j];
+                        if lo.is_finite() && hi.is_finite() {
+                            let mut cand = sc.problem.start.clone();
+                            cand[offs[ci] + j] = if r.bool(0.5) { hi + 0.05 * (hi - lo) } else { lo - 0.05 * (hi - lo) };
+                            if ev.valid(&kit.unflat(&cand), &cand) {
+                                sc.problem.start = cand;
+                                sc.problem.tags.push("first-start-outside-the-box".into());
+                                b.count("cases_with_first_start_outside_the_box_and_further_starts", 1);
+                            }
+                        }
+                        break;
+                    }
+                }
+            }
         }
     });
 }
